@@ -700,6 +700,36 @@ def specials(depth_family=False):
         out.append((f"zoo_odd{k}.h", header42(f"zoo_odd{k}.h") + f"\n#ifndef ZOO_ODD_H\n# define ZOO_ODD_H\n\n{d}\n\nint\tft_a(int a);\n\n#endif\n", "odd"))
         d0 = "\n".join(ln.replace("# ", "#", 1) if ln.startswith("# ") else ln for ln in d.split("\n"))
         out.append((f"zoo_odd{k}.c", header42(f"zoo_odd{k}.c") + f"\n{d0}\n\nint\tmain(void)\n{{\n\treturn (0);\n}}\n", "odd"))
+    # unusual but legal C, one construct per file (whatever the tool thinks of them, each must get an answer, the same every time)
+    legal_h = ["typedef struct s_bits\n{\n\tunsigned int\ta : 3;\n\tint\t\t\t\tb : 1;\n\tint\t\t\t\t: 0;\n}\tt_bits;",
+               "typedef struct s_out\n{\n\tstruct s_in\n\t{\n\t\tint\ta;\n\t}\tin;\n\tunion u_u\n\t{\n\t\tint\t\ti;\n\t\tchar\tc;\n\t}\tu;\n\tenum e_e\n\t{\n\t\tA,\n\t\tB\n\t}\te;\n}\tt_out;",
+               "int\t(*ft_get(int a))(int, char **);\nvoid\t(*(*ft_pp(void))(int))(char);",
+               "typedef int\tt_grid[3][4];\nextern int\tg_tab[][2];\nint\t\tft_sum(int n, int tab[n][n]);",
+               "int\tft_attr(int a) __attribute__((nonnull, warn_unused_result));\nvoid\tft_die(void) __attribute__((noreturn));",
+               "static inline int\tft_min(int a, int b);\n_Noreturn void\tft_exit(int code);\nint\t\t\t\t\tft_r(char *restrict a, const char *const b);",
+               "typedef unsigned long long int\tt_u64;\ntypedef long double\t\t\t\tt_ld;\ntypedef signed char\t\t\t\tt_sc;",
+               "int\tft_very_long_identifier_name_that_goes_on_and_on_and_on_for_quite_a_while_indeed_0123456789(void);",
+               "%:define DIGRAPH 1\nint\tft_di(int a<:3:>);",
+               "??=define TRIGRAPH 1\nint\tft_tri(int a??(3??));",
+               "int\tft_variadic(const char *fmt, ...);\nint\tft_old();",
+               "struct s_fwd;\nunion u_fwd;\nenum e_fwd;\ntypedef struct s_fwd\tt_fwd;"]
+    for k, body in enumerate(legal_h):
+        out.append((f"legal{k}.h", header42(f"legal{k}.h") + f"\n#ifndef LEGAL{k}_H\n# define LEGAL{k}_H\n\n{body}\n\n#endif\n", "legal"))
+    legal_c = ["\tt_p\tp;\n\n\tp = (t_p){.x = 1, .y = 2};\n\tft_use(&(t_p){3, 4});\n\treturn (p.x);\n",
+               "\tint\ttab[3][2];\n\n\ttab[1][0] = (int [2]){1, 2}[1];\n\treturn (tab[1][0]);\n",
+               "\tint\t(*f)(int);\n\tint\t(*g[2])(int);\n\n\tf = &ft_x;\n\tg[0] = f;\n\treturn ((*g[0])(3) + f(2));\n",
+               "\tasm(\"nop\");\n\t__asm__ volatile (\"\" : : : \"memory\");\n\treturn (0);\n",
+               "\twchar_t\t*w;\n\n\tw = L\"wide\";\n\tft_put(u8\"utf8\", U\"long\", u'c', L'w');\n\treturn (0);\n",
+               "\tint\ta;\n\n\ta = 1 ? 2 : 3;\n\ta = (a, 2);\n\ta = sizeof(int [a]);\n\ta = _Alignof(int);\n\treturn (a);\n",
+               "\tint\ta<:3:>;\n\n\ta<:0:> = 1;\n\tif (a<:0:> not_eq 2)\n\t\ta<:1:> = 2;\n\treturn (a<:0:>);\n",
+               "\tint\ta;\n\n\ta = 0x1p3 + 0b101 + 1e3 + 017 + 1.5e-3f + 100ULL + 'a' + '\\x41' + '\\101';\n\treturn (a);\n",
+               "\tint\ta;\n\n\ta = 3;\n\ta = a++ + ++a - a-- - --a;\n\ta <<= 2;\n\ta >>= 1;\n\ta = ~a & a | a ^ a;\n\treturn (!a && a || a);\n",
+               "\tchar\t*s;\n\n\ts = \"a\" \"b\"\n\t\t\"c\";\n\ts = \"tab\\t nl\\n quote\\\" back\\\\ nul\\0 oct\\101 hex\\x41\";\n\treturn (s[0]);\n",
+               "\tint\ta;\n\n\ta = 0;\n\twhile (a < 3)\n\t{\n\t\tif (a == 1)\n\t\t{\n\t\t\ta++;\n\t\t\tcontinue ;\n\t\t}\n\t\telse if (a == 2)\n\t\t\tbreak ;\n\t\telse\n\t\t\ta += 2;\n\t}\n\treturn (a);\n"]
+    for k, body in enumerate(legal_c):
+        out.append((f"legal{k}.c", ok_func(f"legal{k}.c", body=body), "legal"))
+    out.append(("legal_knr.c", header42("legal_knr.c") + "\nint\tft_knr(a, b)\nint\ta;\nchar\t*b;\n{\n\treturn (a + *b);\n}\n", "legal"))
+    out.append(("legal_nested_fn.c", header42("legal_nested_fn.c") + "\nstatic int\tft_a(int a);\n\nstatic int\tft_a(int a)\n{\n\treturn (a);\n}\n\nint\t\t\tmain(int argc, char **argv, char **envp)\n{\n\t(void)argc;\n\t(void)argv;\n\t(void)envp;\n\treturn (ft_a(1));\n}\n", "legal"))
     # statements whose handling depends on the debug level in the rules (fatal by default, tolerated under -d)
     for k, body in enumerate(["\tgoto 1;\n", "\tgoto ;\n", "\tgoto *p;\n", "\tgoto (a);\n", "\tint\ti;\n\n\ti = 0;\n\t) i++;\n"]):
         out.append((f"zoo_dbg{k}.c", ok_func(f"zoo_dbg{k}.c", body=body + "\treturn (0);\n"), "zoo"))
